@@ -259,6 +259,24 @@ func vh_echo4() {
 	vreach("answered")
 }
 
+// The real replier loop: every queued request gets its reply attempt, also after a transient
+// transmit error on an earlier one (a replier that gives up answers nobody afterwards).
+func vh_echo_replier() {
+	env := vhNewEnv()
+	e := env.e
+	k := 1 + vnChoice("requests", 3)
+	for i := 0; i < k; i++ {
+		req := vhICMPReq(8, 1)
+		e.handleICMP(&env.r, vhPkt(req, 0))
+	}
+	vassert(len(e.echoRequests) == k, "queued")
+	env.link.FailFirst = vnChoice("failfirst", 2)
+	close(e.echoRequests) // lets the loop end once the queue is drained
+	e.echoReplier()
+	vassert(len(env.link.Sent) == k, "the replier answers every queued request, whatever happened to the earlier replies")
+	vreach("replier")
+}
+
 // other ICMP types never produce an echo reply
 func vh_icmp4_other() {
 	env := vhNewEnv()
